@@ -189,6 +189,8 @@ impl Storage {
             self.update_min_filtered_block_number(0);
             // The marker that makes the next start skip this initialisation is written last:
             // if the process dies earlier, everything above is simply written again.
+            #[cfg(feature = "verif")]
+            crate::verif_hooks::at(crate::verif_hooks::Point::BeforeWrite("put_genesis_marker"));
             self.db
                 .put(genesis_block_key, genesis_hash_and_txs_hash.as_slice())
                 .expect("db put genesis block should be ok");
